@@ -54,6 +54,7 @@ fn main() {
         "c01-model" => c01::model_leg(&args),
         "c01-sharded" => c01::sharded_leg(&args),
         "c02-lin" => c02::lin_leg(&args),
+        "c02-conn" => c02::conn_leg(&args),
         "c03-twin" => c03::twin_leg(&args),
         "c04-pipeline" => c04::pipeline_leg(&args),
         "c04-malformed" => c04::malformed_leg(&args),
